@@ -185,17 +185,37 @@ class Ctx:
             raise Infra(f"disallowed axioms: {bad}")
         self.partial_theorems = sorted(n for n in self.theorems if n.endswith("_partial"))
 
-    def grep_banned(self, extra_files: Iterable[str] = ()) -> None:
+    def grep_banned(self, roots: Iterable[str] = ()) -> None:
+        """Banned tokens in every Lean source this property depends on (transitive imports of
+        its theorem modules and of its driver); with no roots, the whole tree."""
+        files: list[str] = []
+        base = LEAN
+        roots = list(roots)
+        if roots:
+            seen: set[str] = set()
+            todo = list(roots)
+            while todo:
+                m = todo.pop()
+                if m in seen or not m.startswith("GuppyVerif"):
+                    continue
+                seen.add(m)
+                f = os.path.join(base, *m.split(".")) + ".lean"
+                if not os.path.exists(f):
+                    continue
+                files.append(f)
+                for im in re.findall(r"^import\s+(\S+)", open(f).read(), re.M):
+                    todo.append(im)
+        else:
+            for root, _d, fs in os.walk(os.path.join(base, "GuppyVerif")):
+                files += [os.path.join(root, fn) for fn in fs if fn.endswith(".lean")]
         hits = []
-        for root, _d, files in os.walk(os.path.join(LEAN, "GuppyVerif")):
-            for fn in files:
-                if fn.endswith(".lean"):
-                    p = os.path.join(root, fn)
-                    src = _strip_comments(open(p).read())
-                    for m in BANNED.finditer(src):
-                        hits.append(f"{p}: {m.group(0).strip()}")
+        for p in sorted(files):
+            src = _strip_comments(open(p).read())
+            for m in BANNED.finditer(src):
+                hits.append(f"{p}: {m.group(0).strip()}")
         if hits:
             raise Infra("banned tokens in Lean sources: " + "; ".join(hits[:10]))
+        self.extra["lean_files_scanned"] = len(files)
 
     def driver(self, name: str, lines: list[str], timeout: int = 3000) -> list[str]:
         """Pipe request lines to the Lean model driver, return reply lines (same length)."""
@@ -324,7 +344,8 @@ def main(mod) -> None:
         extra = list(getattr(mod, "BUILD_EXTRA", []))
         ok = ctx.lake_build(mods + extra)
         # 3. hygiene
-        ctx.grep_banned()
+        drv = getattr(mod, "DRIVER", None)
+        ctx.grep_banned(mods + extra + ([f"GuppyVerif.Drivers.{drv}"] if drv else []))
         if ok:
             ctx.audit(mods)
             if ctx.tier == "thorough" and getattr(mod, "LEANCHECKER", True):
